@@ -19,6 +19,10 @@ import (
 	"github.com/smartcontractkit/chainlink-ccip/execute/tokendata"
 	"github.com/smartcontractkit/chainlink-ccip/internal/mocks"
 	"github.com/smartcontractkit/chainlink-ccip/internal/plugincommon"
+	"github.com/smartcontractkit/chainlink-ccip/internal/plugincommon/discovery"
+	dt "github.com/smartcontractkit/chainlink-ccip/internal/plugincommon/discovery/discoverytypes"
+	"github.com/smartcontractkit/chainlink-ccip/pkg/consts"
+	readerpkg "github.com/smartcontractkit/chainlink-ccip/pkg/reader"
 	cciptypes "github.com/smartcontractkit/chainlink-ccip/pkg/types/ccipocr3"
 	"github.com/smartcontractkit/chainlink-ccip/pluginconfig"
 )
@@ -516,7 +520,16 @@ func TestVerif_C17_observation(t *testing.T) {
 	defer sink.Close()
 	for i := 0; i < n; i++ {
 		lr := vNewRand(r.U64())
-		cls := vPick(lr, []string{"fits", "overflow", "overflow", "overflow-big", "one-report-too-big"})
+		cls := vPick(lr, []string{"fits", "overflow", "overflow", "overflow-big", "one-report-too-big",
+			"calibrated-straddle", "calibrated-straddle", "calibrated-above", "calibrated-just-below"})
+		if i < 6 { // the classes the limit is about come first, so that small samples hold them
+			cls = []string{"calibrated-straddle", "calibrated-above", "calibrated-just-below", "calibrated-straddle", "overflow", "fits"}[i]
+		}
+		// contract discovery data carried by the same observation: processor disabled / no addresses / a few / ~300 source chains
+		disc := vPick(lr, []int{-1, 0, 3, 300})
+		if cls == "calibrated-straddle" {
+			disc = vPick(lr, []int{3, 300, 300})
+		}
 		// pending reports of the previous outcome and the messages behind them
 		nch := lr.Range(1, 3)
 		var pending []exectypes.CommitData
@@ -536,7 +549,8 @@ func TestVerif_C17_observation(t *testing.T) {
 					BlockNum: root, MerkleRoot: vC17B32(root), SequenceNumberRange: cciptypes.NewSeqNumRange(lo, hi)})
 				for s := lo; s <= hi; s++ {
 					size := map[string][]int{"fits": {100, 2000}, "overflow": {20000, 60000, 90000}, "overflow-big": {90000, 150000},
-						"one-report-too-big": {300000, 400000}}[cls]
+						"one-report-too-big": {300000, 400000}, "calibrated-straddle": {20000, 30000}, "calibrated-above": {20000, 30000},
+						"calibrated-just-below": {20000, 30000}}[cls]
 					data := make([]byte, vPick(lr, size))
 					id := vC17B32(uint64(c)*100000 + uint64(s))
 					msgs[c][s] = cciptypes.Message{Header: cciptypes.RampMessageHeader{MessageID: id, SourceChainSelector: c,
@@ -552,21 +566,38 @@ func TestVerif_C17_observation(t *testing.T) {
 		if err != nil {
 			t.Fatal(err)
 		}
+		// one message (the last of the last pending report) is padded to calibrate the encoded size
+		padChain, padSeq := pending[len(pending)-1].SourceChain, pending[len(pending)-1].SequenceNumberRange.End()
+		padding := 0
+		addrs := readerpkg.ContractAddresses{}
+		if disc >= 0 {
+			addrs[consts.ContractNameOffRamp] = map[cciptypes.ChainSelector]cciptypes.UnknownAddress{900: make([]byte, 20)}
+			addrs[consts.ContractNameOnRamp] = map[cciptypes.ChainSelector]cciptypes.UnknownAddress{}
+			for k := 0; k < disc; k++ {
+				addrs[consts.ContractNameOnRamp][cciptypes.ChainSelector(1000+k)] = make([]byte, 20)
+			}
+		}
 		rd := &vCCIPReader{MsgsFn: func(chain cciptypes.ChainSelector, q cciptypes.SeqNumRange) ([]cciptypes.Message, error) {
 			var out []cciptypes.Message
 			for s := q.Start(); s <= q.End(); s++ {
 				if m, ok := msgs[chain][s]; ok {
+					if chain == padChain && s == padSeq && padding > 0 {
+						m.Data = make([]byte, len(m.Data)+padding)
+					}
 					out = append(out, m)
 				}
 			}
 			return out, nil
-		}}
+		}, DiscoverFn: func() (readerpkg.ContractAddresses, error) { return addrs, nil }}
 		hc := vNewHomeChain()
 		p2p := map[commontypes.OracleID]libocrtypes.PeerID{0: vPeer(0)}
 		for c := cciptypes.ChainSelector(1); c <= 3; c++ {
 			hc.SetChain(c, 1, []libocrtypes.PeerID{vPeer(0)})
 		}
 		hc.SetChain(900, 1, []libocrtypes.PeerID{vPeer(0)})
+		for k := 0; k < disc; k++ { // the discovered source chains are configured chains (their f is part of the discovery data)
+			hc.SetChain(cciptypes.ChainSelector(1000+k), 1, []libocrtypes.PeerID{vPeer(0)})
+		}
 		p := &Plugin{
 			reportingCfg: ocr3types.ReportingPluginConfig{OracleID: 0, F: 1, N: 4},
 			offchainCfg: pluginconfig.ExecuteOffchainConfig{BatchGasLimit: 100000000,
@@ -579,7 +610,17 @@ func TestVerif_C17_observation(t *testing.T) {
 			costlyMessageObserver: vC17Costly{costly},
 			lggr:                  mocks.NullLogger,
 		}
-		// the observation before truncation, from the plugin's own building blocks
+		var contracts dt.Observation
+		if disc >= 0 {
+			var rdr readerpkg.CCIPReader = rd
+			p.discovery = discovery.NewContractDiscoveryProcessor(mocks.NullLogger, &rdr, hc, 900, 1, p2p)
+			p.contractsInitialized = true
+			contracts, err = p.discovery.Observation(ctx, dt.Outcome{}, dt.Query{})
+			if err != nil {
+				t.Fatal(err)
+			}
+		}
+		// the WHOLE observation before truncation (discovery data included), from the plugin's own building blocks
 		gen := func() exectypes.Observation {
 			po, err := exectypes.DecodeOutcome(prev)
 			if err != nil {
@@ -592,7 +633,28 @@ func TestVerif_C17_observation(t *testing.T) {
 			}
 			td, _ := p.tokenDataObserver.Observe(ctx, mo)
 			cm, _ := p.costlyMessageObserver.Observe(ctx, mo.Flatten(), nil)
-			return exectypes.Observation{CommitReports: cache, Messages: mo, TokenData: td, CostlyMessages: cm}
+			return exectypes.Observation{CommitReports: cache, Messages: mo, TokenData: td, CostlyMessages: cm, Contracts: contracts}
+		}
+		max := maxObservationLength
+		// calibration: pad one message so that the observation WITHOUT the discovery data ends a little below the
+		// limit (less than the discovery data's size below it: the whole observation is above), just above it, or the
+		// whole observation ends just below it
+		if len(cls) > 10 && cls[:10] == "calibrated" {
+			whole := gen()
+			bw, _ := whole.Encode()
+			whole.Contracts = dt.Observation{}
+			bn, _ := whole.Encode()
+			discSize := len(bw) - len(bn)
+			target := max + 4000 // size without discovery data
+			switch cls {
+			case "calibrated-straddle":
+				target = max - 1 - lr.Intn(discSize)
+			case "calibrated-just-below":
+				target = max - discSize - lr.Intn(3)
+			}
+			if target > len(bn) {
+				padding = (target - len(bn)) / 2
+			}
 		}
 		full := gen()
 		v0 := vC17VecOf(full)
@@ -600,7 +662,6 @@ func TestVerif_C17_observation(t *testing.T) {
 		z.Use(v0)
 		tab := &vC17Tab{vNewIntern(), vNewIntern()}
 		in0 := tab.Obs(full)
-		max := maxObservationLength
 		var out string
 		var target vC17Vec
 		outSize := 0
@@ -656,9 +717,10 @@ func TestVerif_C17_observation(t *testing.T) {
 			}
 			tabS = append(tabS, cPair(z.used[k].Coq(), cNi(z.Size(z.used[k]))))
 		}
+		cls = fmt.Sprintf("%s/discovery-%d", cls, disc)
 		sink.Emit("C17_observation", cls, len(picks) > 0,
 			cPair(cTup(in0, cList(tabS), cList([]string{cPair(cZ(int64(max)), cList(ps))})), cList([]string{cPair(out, cNi(outSize))})),
-			map[string]any{"class": cls, "reports": v0.Key(), "fullSize": z.Size(v0), "limit": max, "cuts": picks, "size": outSize,
+			map[string]any{"class": cls, "reports": v0.Key(), "fullSize": z.Size(v0), "limit": max, "cuts": picks, "size": outSize, "padding": padding,
 				"result": out[:vMin(len(out), 12)]})
 	}
 }
